@@ -24,6 +24,13 @@ Example ascii_word_anchor : forallb (fun c => Bool.eqb (is_word c) (existsb (N.e
                                     (map N.of_nat (seq 0 128)) = true.
 Proof. vm_compute. reflexivity. Qed.
 
+(* the id supply: one nanoid.generate() call draws its randomness from os.urandom and from nothing else in the
+   module's namespace, and re-seeding Python's global RNG does not make the ids repeat - the checked premise behind
+   the assumption "the id supply is injective whatever user code does during the render" *)
+Example id_supply_anchor :
+  Gen.C14.id_entropy_source = s2n "os.urandom"%string /\ Gen.C14.id_supply_independent_of_global_rng = true.
+Proof. split; reflexivity. Qed.
+
 (* the placeholder of instance `id` after its parent's set_html_attributes put the attributes `attrs` on it *)
 Definition tagged_placeholder (id : str) (attrs : list str) : str :=
   Gen.C14.placeholder_prefix ++ id ++ [34%N]
